@@ -166,14 +166,17 @@ def make_files(rng, ctx):
     return files
 
 
-def check_cut(res, f, fi, k, name, make, key, full, clocked):
+def check_cut(res, f, fi, k, name, make, key, full, clocked, pieces=False):
     data = f['data'][:k]
-    # every fourth cut is also delivered in pieces: a read stops at a piece edge although more data follows (a capture
-    # buffer fed from a pipe or socket); whatever the tool makes of such reads, what it reports stays a prefix
+    # every third cut is delivered a second time in pieces: a read stops at a piece edge although more data follows (a
+    # capture buffer fed from a pipe or socket); whatever the tool makes of such reads, what it reports stays a prefix.
+    # (An extra run: a short read usually ends the parse early, which would hide what the plain run of the cut shows.)
     edges = ()
-    if (fi + k) % 4 == 0 and k > 2:
+    if pieces:
         edges = sorted({(k * 7919 + fi * 31) % k or 1, max(1, k - 1 - (k * 31 + fi) % 64)})
         res.count('cuts_delivered_in_pieces')
+    elif (fi + k // 8) % 3 == 0 and k > 2:
+        check_cut(res, f, fi, k, name, make, key, full, clocked, pieces=True)
     reader = monitors.CountingReader(data, edges=edges)
     budget = 2000 * len(data) + 1000000 if clocked else None
     got, exc = collect(make, key, reader, budget)
